@@ -145,6 +145,9 @@ package fiber
 //@   ensures buffers-allocated: buffersAllocated(c)
 //@   ensures wf: ctxWF(c)
 //@   ensures [C06] immutable-path-original: c.app.config.Immutable ==> stable(c.pathOriginal)
+// [C10] the BaseURL cache never carries a value computed for another request (another peer, other headers):
+// precondition cache-wf of BaseURL holds at the start of every request.
+//@   ensures [C10] base-url-cache-cleared: c.baseURI == ""
 
 // A new context (what app.pool.New builds) satisfies the pool invariant.
 //@ func NewDefaultCtx
